@@ -317,6 +317,18 @@ def gen_plan(rng, family):
             if plan["timeout"] and rng.random() < 0.4:
                 main.append(["pause"])
         plan["final"] = "none"
+    elif family == "satreuse":                  # C08 delivered, reusable executor: created small, resized up, then saturated (the call queue is created once)
+        plan["reusable"] = True
+        plan["workers"] = rng.choice([1, 1, 2])
+        plan["timeout"] = None
+        big = rng.choice([4, 5, 6, 7])
+        main.append(["submit", "value"])
+        main.append(["await_all"])
+        main.append(["resize", big])
+        for _ in range(big + rng.randint(0, 2)):
+            main.append(["submit", "block"])
+        plan["saturate_to"] = big
+        plan["final"] = "none"
     else:
         raise ValueError(family)
     return plan
@@ -377,6 +389,8 @@ def make_program(plan):
                         ex = env.notes.get(("mine", tname))
                         if ex is None:
                             continue
+                    elif plan["family"] == "satreuse" and S.re_._executor is not None:
+                        ex = S.re_._executor          # the singleton as the last resize left it (get_ex would resize it back)
                     else:
                         ex = get_ex(env)
                     f = submit(env, ex, act[1])
@@ -804,7 +818,7 @@ def analyze(plan, r):
         or (fam == "spawnfail" and notes.get("late_submit") in ("BlockingIOError", "OSError"))
     # (a submit() that failed because a worker could not be started leaves its item registered: observation O3, outside the
     #  properties' fault model -- in that family only the routing of results is judged, not liveness)
-    if fam != "saturate" and not spawn_failed and r.status in ("quiescent", "polling") and (not r.users_done or pending):
+    if fam not in ("saturate", "satreuse") and not spawn_failed and r.status in ("quiescent", "polling") and (not r.users_done or pending):
         sig = (f"hang status[{r.status}] blocked[{','.join(blocked)}] dead-holders[{','.join(sorted(set(dead_holders)))}] "
                f"crashes[{','.join(sorted(set(crashes)))}] ctx[{ctx}]")
         if any(b_.endswith("sem.acquire:cq.slot") for b_ in blocked):
@@ -1000,5 +1014,12 @@ def analyze(plan, r):
         want = min(plan["workers"], len(r.kinds))
         if len(RUNNING_NOW) != want:
             add(["C08"], "under-parallel", f"saturated-pool-runs[{len(RUNNING_NOW)}]-of[{want}] ctx[{ctx}]",
+                f"blocked: {blocked}")
+    if fam == "satreuse" and r.status == "quiescent":
+        want = plan["saturate_to"]
+        slots = sorted({getattr(ex_.get("cq"), "_maxsize", None) for ex_ in env.all_executors if ex_.get("cq") is not None} - {None})
+        if len(RUNNING_NOW) != want:
+            # how many slots the call queue has is part of the history: it is created once, sized from the host (5 in the simulation)
+            add(["C08"], "under-parallel", f"saturated-pool-runs[{len(RUNNING_NOW)}]-of[{want}] ctx[{ctx}] queue-slots[{','.join(map(str, slots))}]",
                 f"blocked: {blocked}")
     return out
